@@ -1200,8 +1200,6 @@ def run_impl(case: dict, inventory=None) -> dict:
             lines.append("dump")
             impl.append(dump(w))
         wrapped = list(rec.wrapped)
-        for d in sorted(getattr(rec, "dead", ())):
-            info["inventory-class-in-a-module-that-cannot-be-imported:" + d] = 1
         runtime_inv = sorted(rec.runtime_inventory)
     if getattr(w, "env", None) is not None:
         try:
